@@ -51,6 +51,8 @@ func newScalarTable(inputSampleIDs []uint64, outputs []*model.Series, newAccumul
 }
 
 func (t *scalarTable) aggregate(arg float64, vector model.StepVector) {
+	// The output belongs to the step of the input, also when the input has no samples.
+	t.timestamp = vector.T
 	t.reset(arg)
 
 	for i := range vector.Samples {
